@@ -18,7 +18,7 @@ ASSUMPTIONS = [
     "therefore moved off the grid by the generator, and step functions of time (floor) are not generated",
     "models with derivative parameters are excluded by the statement",
 ]
-BUDGET = {"quick": 1500, "thorough": 12000}  # thorough = 8x quick: a depth that was run to completion, quiet, at seed 1 (deterministic given the seed)
+BUDGET = {"quick": 1500, "thorough": 6000}  # thorough = 4x quick: a depth that was run to completion, quiet, at seed 1 (deterministic given the seed)
 TIME_CAP = {"quick": 75, "thorough": 1500}
 PROFILE = {"p_programs": 0.5, "max_steps": 16, "min_steps": 4, "extreme": 0.05, "p_function": 0.4, "p_timed": 0.6, "p_junction": 0.4, "smooth_functions": True, "p_output_pars": 0.5, "allow_junction_init": True}
 DYADIC = [1.0, 0.5, 0.25, 0.125]
